@@ -287,6 +287,27 @@ func TestCrossClusterReplay(t *testing.T) {
 				if err != nil {
 					fail("HARNESS: GetSnapshot: %v", err)
 				}
+				// the snapshot object is taken in the apply loop; its data (engine checkpoint name +
+				// synced positions) is serialised later by another goroutine while the apply loop goes
+				// on: source entries applied in between are after the snapshot index
+				if rapid.IntRange(0, 1).Draw(t, "deliver_before_serialise") == 0 && px < uint64(len(srcX)) {
+					end := px + uint64(rapid.IntRange(1, 3).Draw(t, "nmid"))
+					if end > uint64(len(srcX)) {
+						end = uint64(len(srcX))
+					}
+					var idxs []uint64
+					for i := px + 1; i <= end; i++ {
+						idxs = append(idxs, i)
+						if applied[i] == 0 {
+							firstDelivery[i] = snapshotEpoch
+						}
+						applied[i]++
+					}
+					deliver("X", srcX, idxs, 0)
+					canon = append(canon, fmt.Sprintf("mid%v", idxs))
+					labels["delivery_between_snapshot_and_its_serialisation"] = true
+					trace = append(trace, "  (that delivery came after the snapshot object of the next line was taken, before its data was serialised)")
+				}
 				d, err := sn.GetData()
 				if err != nil {
 					fail("snapshot at receiver index %d failed: %v", idx, err)
